@@ -17,7 +17,7 @@ use jrsonnet_evaluator::{
 	AsPathLike, ImportResolver, ResolvePath,
 };
 use jrsonnet_gcmodule::Acyclic;
-use jrsonnet_ir::{SourceDirectory, SourceFile, SourcePath};
+use jrsonnet_ir::{SourceDirectory, SourceFifo, SourceFile, SourcePath};
 
 use crate::VM;
 
@@ -112,7 +112,14 @@ impl ImportResolver for CallbackImportResolver {
 		Ok(found_here_buf)
 	}
 	fn load_file_contents(&self, resolved: &SourcePath) -> Result<Vec<u8>> {
-		Ok(self.out.borrow().get(resolved).unwrap().clone())
+		// Inline code (ext/tla code) is not resolved by callback, it carries its own contents
+		if let Some(f) = resolved.downcast_ref::<SourceFifo>() {
+			return Ok(f.1.to_vec());
+		}
+		match self.out.borrow().get(resolved) {
+			Some(contents) => Ok(contents.clone()),
+			None => bail!(ResolvedFileNotFound(resolved.clone())),
+		}
 	}
 }
 
